@@ -1179,6 +1179,12 @@ def _create_converter(dataType):
             return None
 
         if isinstance(obj, Row):
+            fields = getattr(obj, '__fields__', None)
+            if fields is not None and list(fields) != names and all(n in names for n in fields):
+                # the rows of one dataset may carry different sets of fields (the
+                # inferred schema is their union): place the values by name and
+                # fill what this row does not have with None, as for dicts
+                obj = create_row(names, [obj[n] if n in fields else None for n in names])
             if convert_fields:
                 return create_row(
                     obj.__fields__,
